@@ -272,7 +272,7 @@ pub fn run_maxima(rng: &mut Rng, out: &mut Out, n: usize) {
 pub fn run_c01(rng: &mut Rng, out: &mut Out, n: usize) {
     install_panic_hook();
     run_large_assertions(rng, out, (n / 8).max(3));
-    run_maxima(rng, out, (n / 60).max(3));
+    run_maxima(rng, out, (n / 60).max(6));
     for it in 0..n {
         let (field, hasher) = pick_cfg(rng);
         let p = modulus(field);
